@@ -4,6 +4,7 @@ import ExponaxModel.Proofs.DFT
 import ExponaxModel.Proofs.ExactLinearBand
 import ExponaxModel.Proofs.ExactLinearSemigroup
 import ExponaxModel.Proofs.StepperSymbols
+import ExponaxModel.Proofs.SpectralOpsEq
 /-
 C01 — linear steppers advance band-limited states by the exact PDE solution.
 
@@ -211,5 +212,25 @@ theorem C01_generated_coverage : Gen.Steppers.generated_classes.length = 26 ∧
 example : ∃ c : Cfg ℂ, ∃ s : ℝ, c.s = (s : ℂ) ∧ s ≠ 0 :=
   ⟨{ D := 2, N := 8, s := ((3 : ℝ) : ℂ), fp := 0, fq := 0 }, 3, rfl, by norm_num⟩
 example : (2 : ℝ) ≠ 0 ∧ (1.5 : ℝ) ≠ 0 := by norm_num
+
+/-! ### `Wave.step_fourier`, regenerated from `stepper/_wave.py` on every run (diagonalisation, propagation, back
+transform, explicit mean-mode drift), is the per-mode model `Wave.stepMode` of `C01_wave` / `C01_wave_dc`, with the
+wavenumber norm the constructor stores -/
+open Exponax.SpectralOpsEq in
+theorem C01_generated_wave_step (D N : ℕ) (hN : 0 < N) (L dt c : ℂ) (u_hat : MC ℂ) :
+    Gen.SpectralOps.Wave_step_fourier D N L dt c u_hat =
+      tab2 2 (Layout.numModes D N) (fun i h =>
+        if i = 0 then (Wave.stepMode c dt (waveKn D N L h) (decide (h = 0)) (at2 u_hat 0 h) (at2 u_hat 1 h)).1
+        else (Wave.stepMode c dt (waveKn D N L h) (decide (h = 0)) (at2 u_hat 0 h) (at2 u_hat 1 h)).2) :=
+  Wave_step_fourier_eq D N hN L dt c u_hat
+
+open Exponax.SpectralOpsEq in
+/-- the stored wavenumber norm is `(2π/L)·|k|`, zero exactly at the mean mode -/
+theorem C01_generated_wave_norm (D N : ℕ) (hD : 1 ≤ D) (hN : 0 < N) (ℓ : ℝ) (hℓ : 0 < ℓ) (h : ℕ)
+    (hh : h < Layout.numModes D N) :
+    waveKn D N (ℓ : ℂ) h = ((2 * Real.pi / ℓ * Real.sqrt (kSq (cfg D N (ℓ : ℂ)) h) : ℝ) : ℂ) ∧
+      (waveKn D N (ℓ : ℂ) h = 0 ↔ ∀ d < D, (Layout.wnFlat D N h).getD d 0 = 0) :=
+  ⟨waveKn_real D N hD hN ℓ hℓ h hh, waveKn_eq_zero_iff D N hD hN ℓ hℓ h hh⟩
+
 
 end Exponax
